@@ -66,6 +66,13 @@ psutil_proc_ioprio_set(PyObject *self, PyObject *args) {
             args, _Py_PARSE_PID "ii", &pid, &ioclass, &iodata)) {
         return NULL;
     }
+    // Left-shifting a negative or too large int is undefined behavior
+    // (signed integer overflow): refuse what cannot be a valid
+    // class / data pair before packing them, the way the kernel would.
+    if (ioclass < 0 || ioclass > 7 || iodata < 0 || iodata > 8191) {
+        errno = EINVAL;
+        return PyErr_SetFromErrno(PyExc_OSError);
+    }
     ioprio = IOPRIO_PRIO_VALUE(ioclass, iodata);
     retval = ioprio_set(IOPRIO_WHO_PROCESS, pid, ioprio);
     if (retval == -1)
